@@ -235,3 +235,19 @@ Theorem C13_conv_rs_matches_model dbg w lg : 0 <= lg -> w = 2 ^ lg ->
     match Convert.I_try_to_uprim dbg pb w ds with Ret r => Done r | Panic => Panicked end.
 Proof. exact (conv_C13_match_model dbg w lg). Qed.
 Print Assumptions C13_conv_rs_matches_model.
+(* ---- tie to the source, primitive -> bnum (From / TryFrom): from_int! (`impl From<$int> for $BInt<N>`, signed $int) and from_uint!
+   (`impl From<$from> for $BInt<N>`, unsigned) of /repo/src/bint/convert.rs and try_from_iint! (`impl TryFrom<$int> for $BUint<N>`,
+   pairs iN -> uN of the same width) of /repo/src/buint/convert.rs, REGENERATED on every run (Generated/ConvGen.v,
+   tools/rs2v_conv.py; pb = <$int>::BITS, the parameter handled as its value), compute exactly the model's I_from_iint / I_from_uint
+   / U_try_from_iint for both values of the debug flag; `$BUint::from(..)` inside the last two is the model's U_from_uint, whose
+   own tie is C13_loops_rs_match_model above. ---- *)
+Theorem C13_conv_from_rs_matches_model dbg w lg : 0 <= lg -> w = 2 ^ lg ->
+  forall n pb int fuel, 0 < pb -> (Z.to_nat pb <= fuel)%nat ->
+  ConvGen.bint_from_int w (Z.of_nat n) fuel pb int =
+    match Convert.I_from_iint dbg pb w n int with Ret r => Done r | Panic => Panicked end /\
+  ConvGen.bint_from_uint dbg w (Z.of_nat n) fuel pb int =
+    match Convert.I_from_uint dbg pb w n int with Ret r => Done r | Panic => Panicked end /\
+  ConvGen.try_from_iint dbg w (Z.of_nat n) fuel pb int =
+    match Convert.U_try_from_iint dbg pb w n int with Ret r => Done r | Panic => Panicked end.
+Proof. exact (conv_C13_from_match_model dbg w lg). Qed.
+Print Assumptions C13_conv_from_rs_matches_model.
